@@ -34,6 +34,7 @@ func init() {
 			{Name: "arity", Run: runArity},
 			{Name: "returns", Run: runReturns},
 			{Name: "callhist", Run: runCallHist},
+			{Name: "alias", Run: runAlias},
 			{Name: "histories", Run: runHistories},
 			{Name: "lethal", Run: runLethal},
 		},
